@@ -119,7 +119,7 @@ def param2ast(param):
             target=Name(name, Store()),
             value=set_value(
                 quote(_param["default"])
-                if _param.get("default")
+                if _param.get("default") is not None
                 else simple_types.get(_param["typ"])
             ),
             expr=None,
